@@ -124,12 +124,16 @@ def key_tail_check(ctx, p):
                         g = h
             gets = g.call_sites('index::IndexTable::get')
         inloop = [s for s in gets if s in g.reaches(s)]
-        ok = len(gets) == 2 and len(inloop) == 1
+        # two forms: a first lookup at 0 followed by a loop whose lookup starts at (previous position + 1); or one lookup site
+        # inside a loop whose start position is a variable that is 0 at first and (previous position + 1) afterwards
+        ok = (len(gets) == 2 and len(inloop) == 1) or (len(gets) == 1 and len(inloop) == 1)
         det = 'IndexTable::get sites %s, in-loop %s' % (gets, inloop)
         if ok:
             a = g.term(inloop[0])['a'][2]
             sl = backward_slice(g, [op_place(a)]) if op_place(a) else None
             ok = sl is not None and ('AddWithOverflow' in sl.binops or 'Add' in sl.binops) and any(c.get('i') == 1 for c in sl.consts) and any(bi in gets for bi, _ in sl.call_sites)
+            if ok and len(gets) == 1:
+                ok = any(c.get('i') == 0 for c in sl.consts)        # ... and starts at slot 0
             det = '' if ok else 'the continuation does not start from (previous sub_index + 1)'
         ctx.ob(p + 'e scan-continues-after-miss %s' % fn, 'K3-guard', fn, 'after a candidate that is not the key, the index page scan continues from the next slot', ok, det)
 
